@@ -168,6 +168,10 @@ pub struct Setup {
     /// raise SIGUSR1 on the shell process right before this scheduler step (only if the process
     /// currently catches it, so that the default action cannot kill the shell)
     pub raise_usr1_at_step: Option<u32>,
+    /// asynchronous delivery at a state rather than a step: raise SIGUSR1 on the main shell process
+    /// the first time its task is blocked (not runnable) after it recorded a trace entry whose first
+    /// argument is this marker
+    pub raise_usr1_when_blocked_after: Option<String>,
 }
 
 impl Setup {
@@ -189,6 +193,7 @@ impl Setup {
             stdin_nonblock: false,
             cont_on_stall: false,
             raise_usr1_at_step: None,
+            raise_usr1_when_blocked_after: None,
         }
     }
     pub fn args(mut self, args: &[&str]) -> Setup {
@@ -501,6 +506,24 @@ pub fn run(setup: &Setup) -> RunResult {
                             let _ = p.raise_signal(SIGUSR1);
                             log.raised = true;
                             log.raised_trace_len = probes::TRACE.with(|t| t.borrow().len());
+                        }
+                    }
+                }
+            }
+            if let Some(marker) = &setup.raise_usr1_when_blocked_after {
+                if !log.raised && !done.get() && !tasks[0].flag.0.load(Ordering::SeqCst) {
+                    let seen = probes::TRACE.with(|t| {
+                        t.borrow().iter().any(|e| e.pid == main_pid && e.args.first().is_some_and(|a| a == marker))
+                    });
+                    if seen {
+                        use yash_env::system::r#virtual::SIGUSR1;
+                        let mut st = state.borrow_mut();
+                        if let Some(p) = st.processes.get_mut(&yash_env::job::Pid(main_pid)) {
+                            if p.disposition(SIGUSR1) == yash_env::system::Disposition::Catch && p.state().is_alive() {
+                                let _ = p.raise_signal(SIGUSR1);
+                                log.raised = true;
+                                log.raised_trace_len = probes::TRACE.with(|t| t.borrow().len());
+                            }
                         }
                     }
                 }
